@@ -27,8 +27,9 @@ func c07Sort3[V univers.Version[V], VR univers.VersionRange[V]](e univers.Ecosys
 	vv.Assume(eb == nil)
 	vc, ec := e.NewVersion(c)
 	vv.Assume(ec == nil)
+	vv.Reached()
 	vv.Assume(!c01AlpmMixedPkgrel(e.Name(), a, b, c))
-	vv.Assume(!vv.Known("KF-C01-order-defect", c07KnownOrderDefect(e.Name())))
+	vv.Assume(!vv.Known("KF-C01-alpm-direct-suffix-heuristic", alpmGlued(e.Name(), a, b, c)))
 	vs := []V{va, vb, vc}
 	slices.SortFunc(vs, func(x, y V) int { return x.Compare(y) })
 	vv.Assert(isPerm3(any(vs[0]), any(vs[1]), any(vs[2]), any(va), any(vb), any(vc)), "C07: sorted output is not a permutation of the input versions")
@@ -49,12 +50,6 @@ func c07Sort3[V univers.Version[V], VR univers.VersionRange[V]](e univers.Ecosys
 	}
 	slices.SortFunc(ws, func(x, y V) int { return x.Compare(y) })
 	vv.Assert(eq3(vs[0].Compare(ws[0]), vs[1].Compare(ws[1]), vs[2].Compare(ws[2])), "C07: a different input order yields a different sequence of equivalence classes")
-}
-
-// ecosystems with an open C01 finding (their Compare is not a preorder, so sorting them is
-// covered by that finding, DESIGN C07 "Today")
-func c07KnownOrderDefect(eco string) bool {
-	return eco == "maven" || eco == "conan" || eco == "alpm" || eco == "debian" || eco == "rpm"
 }
 
 // ---- library oracles for the CLI harness (package main) ----
